@@ -20,6 +20,13 @@ std::uint64_t yk_event_tag(std::uint32_t i);
 void yk_event_reset(void);
 std::int64_t yk_live_allocs(void);              // live blocks obtained through operator new (any variant)
 int yk_is_live(const void* p);
+// kind S: register thread entry i (a void(void) function of the harness) and run them under a symbolic schedule of at
+// most `ctx` contexts followed by the fair continuation (CBMC: sequentialized coroutines; native: real threads gated by
+// the hooks, following the recorded schedule)
+void yk_thread(std::uint32_t i, void (*fn)());
+void yk_run_threads(std::uint32_t ctx);
+std::uint32_t yk_thread_done(std::uint32_t i);
+std::uint32_t yk_ctx_of_finish(std::uint32_t i);
 void yk_stop(void);                            // end of the explored run (CBMC: assume(false); native: exit(0))                  // p is a block obtained through operator new and not yet deleted
 void yk_assert_at(bool c, std::uint32_t line);   // ll2c turns this into __CPROVER_assert(c, "yk:<line>")
 void yk_reach_at(std::uint32_t line);            // ... into __CPROVER_assert(0, "reach:<line>"): the vacuity witness, MUST fail
